@@ -120,6 +120,14 @@ impl<'tcx> Cx<'tcx> {
     }
 
     fn ty(&mut self, t: Ty<'tcx>) -> usize {
+        // normalise (array lengths written as `CONST as usize` are unevaluated otherwise)
+        let t = self
+            .tcx
+            .try_normalize_erasing_regions(
+                TypingEnv::fully_monomorphized(),
+                ty::Unnormalized::new_wip(t),
+            )
+            .unwrap_or(t);
         if let Some(i) = self.type_ix.get(&t) {
             return *i;
         }
@@ -257,7 +265,17 @@ impl<'tcx> Cx<'tcx> {
         }
     }
 
+    fn norm(&self, t: Ty<'tcx>) -> Ty<'tcx> {
+        self.tcx
+            .try_normalize_erasing_regions(
+                TypingEnv::fully_monomorphized(),
+                ty::Unnormalized::new_wip(t),
+            )
+            .unwrap_or(t)
+    }
+
     fn const_value(&mut self, v: mir::ConstValue, t: Ty<'tcx>) -> Obj {
+        let t = self.norm(t);
         let o = Obj::new().n("ty", self.ty(t));
         match v {
             mir::ConstValue::Scalar(s) => match s {
